@@ -2204,7 +2204,19 @@ impl<'data> platform::ObjectFile<'data> for File<'data> {
         symbol: &SymtabEntry,
         index: object::SymbolIndex,
     ) -> Result<Option<object::SectionIndex>> {
-        Ok(self.symbols.symbol_section(LittleEndian, symbol, index)?)
+        let section_index = self.symbols.symbol_section(LittleEndian, symbol, index)?;
+        // Callers use the returned index to index into per-section tables.
+        if let Some(section_index) = section_index
+            && section_index.0 >= self.sections.len()
+        {
+            bail!(
+                "Symbol {} is defined in section {}, but the file only has {} sections",
+                index.0,
+                section_index.0,
+                self.sections.len()
+            );
+        }
+        Ok(section_index)
     }
 
     fn dynamic_tags(&self) -> Result<&'data [DynamicEntry]> {
